@@ -170,14 +170,14 @@ func genInput(rt *rapid.T) (string, []string) {
 	f := lexgen.Features{StringStartsWithDoubledQuote: false, TrailingComment: true, Comments: true}
 	switch rapid.IntRange(0, 9).Draw(rt, "inputkind") {
 	case 0, 1: // one valid statement, canonical layout
-		g := sqlgen.New(rt, sqlgen.AllFeatures())
+		g := sqlgen.New(rt, sqlgen.FullFeatures())
 		return sqlgen.SQL(sqlgen.Statement(g).Toks), []string{"valid"}
 	case 2: // valid, hostile layout
-		g := sqlgen.New(rt, sqlgen.AllFeatures())
+		g := sqlgen.New(rt, sqlgen.FullFeatures())
 		lx := sqlgen.Lexemes(sqlgen.Statement(g).Toks)
 		return lexgen.Render(lx, lexgen.GenSeps(rt, f, lx, "l")).Src, []string{"valid", "hostile_layout"}
 	case 3, 4, 5: // corrupted statement
-		g := sqlgen.New(rt, sqlgen.AllFeatures())
+		g := sqlgen.New(rt, sqlgen.FullFeatures())
 		toks := sqlgen.Statement(g).Toks
 		if len(toks) < 2 {
 			toks = append(toks, sqlgen.Tok{Text: "x"})
@@ -193,7 +193,7 @@ func genInput(rt *rapid.T) (string, []string) {
 		b.WriteString(rapid.SampledFrom([]string{"", ";", ";;", " ; "}).Draw(rt, "lead"))
 		bad := false
 		for i := 0; i < n; i++ {
-			g := sqlgen.New(rt, sqlgen.AllFeatures())
+			g := sqlgen.New(rt, sqlgen.FullFeatures())
 			toks := sqlgen.Statement(g).Toks
 			if rapid.IntRange(0, 4).Draw(rt, "badstmt") == 4 && len(toks) >= 2 {
 				toks = corrupt.Apply(rt, toks).Toks
